@@ -44,6 +44,8 @@ CASES = {
     'rect-ab': ('rect-ab', 0, (0.9, 1.3), (0.0, 1.1), False),
     'ortho-ab': ('ortho-ab', 0, (0.9, 1.2), (0.0, 1.1), False),
     'tric-abc': ('tric-abc', 0, (0.5, 0.95), (0.0, 0.6), True),
+    'dimer-chain': ('dimer-chain', 0, (0.15, 1.45), (0.0, 0.5), False),
+    'oblique-far2': ('oblique-far2', 0, (0.6, 1.55), None, False),
 }
 
 
@@ -112,6 +114,8 @@ def network(case):
         with shim.symbolic_mode():
             jn = crys.jumpnetwork(chem, cutoff) if closest is None else crys.jumpnetwork(chem, cutoff, arg)
             jl = crys.jumpnetwork2lattice(chem, jn)
+        if sym:
+            ENG.require_feasible()
         obs = []
         info = src.info(replayer='net', extra={'case': case})
 
@@ -166,7 +170,7 @@ def network(case):
     return fn
 
 
-QUICK = ['hcp', 'square', 'b2', 'hcpoct', 'tetra-ab', 'rect-ab', 'ortho-ab']
+QUICK = ['hcp', 'square', 'b2', 'hcpoct', 'tetra-ab', 'rect-ab', 'ortho-ab', 'dimer-chain', 'oblique-far2']
 THOROUGH = QUICK + ['hcpoct-list', 'rumpled', 'l12', 'skew2', 'fccint', 'tric-abc']
 
 
